@@ -159,11 +159,14 @@ def unfold2d(
     input = F.pad(input, (pad_W_left, pad_W_right, pad_H_left, pad_H_right))
     *shape_pad, H_pad, W_pad = input.shape
     strides = list(input.stride())
+    # strides of H and W as they are: the padded input need not be contiguous
+    # (channels_last or transposed inputs)
+    stride_H, stride_W = strides[-2:]
     strides = strides[:-2] + [
-        W_pad * dilation[0],
-        dilation[1],
-        W_pad * stride[0],
-        stride[1],
+        stride_H * dilation[0],
+        stride_W * dilation[1],
+        stride_H * stride[0],
+        stride_W * stride[1],
     ]
     out = input.as_strided(
         shape + [kernel_size[0], kernel_size[1], H_effective, W_effective], strides
